@@ -749,6 +749,12 @@ impl<'tcx> Dumper<'tcx> {
                 if tcx.is_mir_available(did) {
                     let body = tcx.optimized_mir(did);
                     o.extend(self.body(did, body));
+                    let proms = tcx.promoted_mir(did);
+                    let mut pj = Vec::new();
+                    for pb in proms.iter() {
+                        pj.push(J::obj(self.body(did, pb)));
+                    }
+                    o.push(("promoted", J::Arr(pj)));
                 }
             } else {
                 let body = tcx.mir_for_ctfe(did);
